@@ -59,7 +59,7 @@ func (c *Ctx) execCall(st *State, fr *Frame, instr ssa.Instruction, call *ssa.Ca
 			se := &SpecEnv{c: c, st: st2, vars: fr.env, pkg: c.pkgOfFrame(fr), old: pre, fr: fr}
 			for _, cl := range acs {
 				c.assumedClauses[c.fnKey()+": after "+cl.Callee+" "+cl.With+" assume "+normSpace(cl.Text)] = true
-				st2.assume(se.evalBool(cl.E))
+				st2.assume(se.assumeF(cl.E))
 			}
 			k0(st2, results)
 		}
@@ -338,9 +338,11 @@ func (c *Ctx) applyContract(st *State, fr *Frame, instr ssa.Instruction, ct *Con
 		if cl.Kind != "requires" {
 			continue
 		}
-		g := se.evalBool(cl.E)
-		c.oblige(st, fr, instr, "pre:"+shortName(name), "precondition of "+name+": "+normSpace(cl.Text), g, cl, nil)
-		st.assume(g)
+		for _, cj := range se.splitConjuncts(cl.E, 0) {
+			g := se.prove(cj)
+			c.oblige(st, fr, instr, "pre:"+shortName(name), "precondition of "+name+": "+cj.String(), g, cl, nil)
+		}
+		st.assume(se.assumeF(cl.E))
 	}
 	pre := st.snap()
 	hasAssigns := false
@@ -367,7 +369,7 @@ func (c *Ctx) applyContract(st *State, fr *Frame, instr ssa.Instruction, ct *Con
 		if cl.Kind != "ensures" {
 			continue
 		}
-		st.assume(se2.evalBool(cl.E))
+		st.assume(se2.assumeF(cl.E))
 	}
 	c.frameCheckCall(st, fr, instr, name, locs, star)
 	k(st, rs)
@@ -827,6 +829,7 @@ func (c *Ctx) execAppend(st *State, fr *Frame, instr ssa.Instruction, call *ssa.
 		return
 	}
 	arr := c.bumpHeap(st2)
+	st2.assume(fmt.Sprintf("(= (atype %s) %d)", arr, c.reg.ArrID(elemT)))
 	ncap := c.declare(st2, "ncap", "Int")
 	st2.assume("(>= " + ncap + " " + newLen + ")")
 	// copy old content
@@ -977,8 +980,10 @@ func (c *Ctx) loopHeader(fr *Frame, li *loopInfo, b, pred *ssa.BasicBlock, st *S
 			if !c.tagSelected(cl.Tags) {
 				continue
 			}
-			g := se.evalBool(cl.E)
-			c.oblige(st, fr, firstInstr, "inv-entry", fmt.Sprintf("loop %d invariant holds on entry: %s", li.ordinal, normSpace(cl.Text)), g, cl, cl.Tags)
+			for _, cj := range se.splitConjuncts(cl.E, 0) {
+				g := se.prove(cj)
+				c.oblige(st, fr, firstInstr, "inv-entry", fmt.Sprintf("loop %d invariant holds on entry: %s", li.ordinal, cj.String()), g, cl, cl.Tags)
+			}
 		}
 		// havoc
 		pre := st.snap()
@@ -1003,7 +1008,7 @@ func (c *Ctx) loopHeader(fr *Frame, li *loopInfo, b, pred *ssa.BasicBlock, st *S
 		// Allocs with names defined before the loop keep their binding (addresses do not change)
 		se2 := &SpecEnv{c: c, st: st, vars: fr.env, pkg: c.pkgOfFrame(fr), old: fr.entry, fr: fr}
 		for _, cl := range invs {
-			st.assume(se2.evalBool(cl.E))
+			st.assume(se2.assumeF(cl.E))
 		}
 		st.active[key] = 1
 		return true
@@ -1015,8 +1020,10 @@ func (c *Ctx) loopHeader(fr *Frame, li *loopInfo, b, pred *ssa.BasicBlock, st *S
 		if !c.tagSelected(cl.Tags) {
 			continue
 		}
-		g := se.evalBool(cl.E)
-		c.oblige(st, fr, firstInstr, "inv-preserved", fmt.Sprintf("loop %d invariant preserved: %s", li.ordinal, normSpace(cl.Text)), g, cl, cl.Tags)
+		for _, cj := range se.splitConjuncts(cl.E, 0) {
+			g := se.prove(cj)
+			c.oblige(st, fr, firstInstr, "inv-preserved", fmt.Sprintf("loop %d invariant preserved: %s", li.ordinal, cj.String()), g, cl, cl.Tags)
+		}
 	}
 	return false
 }
